@@ -5,6 +5,7 @@ CONSTANTS
   PlaceholderTypedAsCookie = FALSE
   UidChecked = TRUE
   AdWhole = FALSE
+  Hardened = TRUE
   StopAtAuth = TRUE
   CtLenExact = TRUE
   LenChoices <- LenChoicesGen
